@@ -215,6 +215,12 @@ func (sc *Scope) evalVal(e *SExpr) Val {
 			}
 			sc.errorf(e, "no map iterator named %s in this state", e.Name[5:])
 		}
+		if c, ok := sc.ex.ghostLists[e.Name]; ok {
+			if t, live := sc.st[c]; live {
+				return Val{T: t}
+			}
+			sc.errorf(e, "ghost list %s not available in this state", e.Name)
+		}
 		if strings.HasPrefix(e.Name, "set_") || strings.HasPrefix(e.Name, "pos_") {
 			if vw, ok := sc.ex.views[e.Name[4:]]; ok {
 				c := vw.set
